@@ -142,6 +142,7 @@ type frame struct {
 	oldState *State               // state at function entry
 	results  []Val
 	callOrd  map[string]int
+	siteOrd  map[ssa.Instruction]int
 	inlineOf *frame
 	tag      string // unique prefix for names of this frame
 }
